@@ -1,6 +1,6 @@
 // C11/C12 correspondence harness: the real ygm::container::map / multimap / set / multiset driven by a
 // scenario file.   args:  map|multimap|set|multiset  <kinds>  <scenario file>  [variant]
-//   kinds: key kind + value kind, 's' = std::string, 'i' = int64_t  (sets: key kind only)
+//   kinds: key kind + value kind, 's' = std::string, 'i' = int64_t, 'u' = uint64_t over the full range (sets: key kind only)
 //   variant: 'd' default template arguments (hash_partitioner, std::less)
 //            'g' Compare = std::greater<Key>
 //            'p' Compare = alt_compare (a different strict total order) and Partitioner = alt_partitioner
@@ -55,6 +55,14 @@ template <> struct codec<i64> {
   static bool        gen2(const i64& k) { return !(k < 5000000); }
   static i64         prod(const i64& k) { return k + 3000000; }
 };
+using u64 = uint64_t;
+template <> struct codec<u64> {   // keys / values over the whole 64-bit range (bit 63 set, all ones, ...); arithmetic wraps mod 2^64
+  static u64         dec(const std::string& t) { return strtoull(t.c_str() + 1, nullptr, 10); }
+  static std::string enc(const u64& v) { return "=" + std::to_string(v); }
+  static u64         dk(const u64& k) { return k + 1000000; }
+  static bool        gen2(const u64& k) { return k % 4 >= 2; }
+  static u64         prod(const u64& k) { return k + 1; }
+};
 template <class T> std::string E(const T& v) { return codec<T>::enc(v); }
 
 // value semantics of the registered lambdas
@@ -93,6 +101,16 @@ template <class K> struct alt_partitioner {
     h ^= h >> 29;
     return std::make_pair((h / 3) % nranks, (h / nranks) % nbanks);
   }
+};
+
+template <> struct vsem<u64> {
+  using V = u64;
+  static V vis1(const V& v, const V& a) { return 3 * v + a; }
+  static V vis3(const V& v, const V& a) { return a + 7 * v; }
+  static V v2_1(const V& v, const V& n, const V& a) { return 5 * v + 3 * n + a; }
+  static V g1(const V& v, const V& a) { return v + a; }
+  template <class It> static V g4(It b, It e) { V r = 0; for (; b != e; ++b) r += b->second; return r; }
+  static V red(int rop, const V& x, const V& y) { return rop == 0 ? 2 * x + y : rop == 1 ? (x < y ? y : x) : x + y; }
 };
 
 template <class V, int ROP> struct reducer { V operator()(const V& x, const V& y) const { return vsem<V>::red(ROP, x, y); } };
@@ -329,11 +347,14 @@ static int dispatch(ygm::comm& world, const std::string& what, const std::string
   }
   if (what == "map" || what == "multimap") {
     bool multi = what == "multimap";
+    if (kinds == "uu") return multi ? run_map<u64, u64, true>(world, lines) : run_map<u64, u64, false>(world, lines);
+    if (kinds == "us") return multi ? run_map<u64, std::string, true>(world, lines) : run_map<u64, std::string, false>(world, lines);
     if (kinds == "ss") return multi ? run_map<std::string, std::string, true>(world, lines) : run_map<std::string, std::string, false>(world, lines);
     if (kinds == "is") return multi ? run_map<i64, std::string, true>(world, lines) : run_map<i64, std::string, false>(world, lines);
     if (kinds == "si") return multi ? run_map<std::string, i64, true>(world, lines) : run_map<std::string, i64, false>(world, lines);
   } else {
     bool multi = what == "multiset";
+    if (kinds == "u") return multi ? run_set<u64, true>(world, lines) : run_set<u64, false>(world, lines);
     if (kinds == "s") return multi ? run_set<std::string, true>(world, lines) : run_set<std::string, false>(world, lines);
     if (kinds == "i") return multi ? run_set<i64, true>(world, lines) : run_set<i64, false>(world, lines);
   }
@@ -363,7 +384,9 @@ extern "C" int sim_main(int argc, char** argv) {
     bool parity = comms.find("parity") != std::string::npos;
     // split by the rank's local id on its node, so that every sub-communicator has the same number of ranks on every node
     const char* e = getenv("SIMMPI_PPN"); int ppn = e ? atoi(e) : wn; if (ppn <= 0 || wn % ppn != 0) ppn = wn;
-    int local = wr % ppn;
+    const char* pl = getenv("SIMMPI_PLACEMENT");
+    bool cyclic = pl && std::string(pl) == "cyclic";     // round-robin placement: rank r lives on node r % N
+    int local = cyclic ? wr / (wn / ppn) : wr % ppn;
     int colour = parity ? (local % 2) : (local < ppn - 1 ? 0 : 1);
     MPI_Comm subc;
     MPI_Comm_split(MPI_COMM_WORLD, colour, wr, &subc);
